@@ -64,8 +64,8 @@ def owners(unit, fn, arm, kind=None):
 # ---- the five parsers (units <stack>-parser) ---------------------------------------------------------
 VAL = ['post', 'invariant', 'assert', 'precond']      # a failed callee precondition inside a parser method = wrong call shape
 P = '*-parser'
-rule(P, 'get_oper_prec', '*', VAL, ['C04'])
-rule(P, 'generate_ast', '*', VAL, ['C04', 'C03', 'C20'])
+rule(P, 'get_oper_prec', '*', VAL, ['C04', 'C17'])
+rule(P, 'generate_ast', '*', VAL, ['C04', 'C03', 'C20', 'C17'])
 rule(P, 'parse', '*', VAL, ['C03', 'C12'])
 rule(P, 'check_paren', '*', VAL, ['C03', 'C04'])
 rule(P, 'function_static_arguments', '*', VAL, ['C03', 'C10'])
